@@ -97,6 +97,15 @@ def handle : Handler := fun op args =>
         let f : Rat → Rat := fun x => (fdef x).getD 0
         let r := if op = "c11.min" then findMinimum rndD f xl xr tol 400 else findMaximum rndD f xl xr tol 400
         show1 r.1 r.2 fdef
+  | "c11.mindef" | "c11.maxdef" =>
+    -- the overloads with the default tolerance of Numerics.hpp (`double tol = 3e-8`)
+    withArgs (do let xl ← pRat; let xr ← pRat; let pr ← pProg; pure (xl, xr, pr)) args
+      fun (xl, xr, pr) =>
+        let tol := rndD (3 / 10 ^ 8)
+        let fdef : Rat → Option Rat := fun x => evalRPN rndD pr [x]
+        let f : Rat → Rat := fun x => (fdef x).getD 0
+        let r := if op = "c11.mindef" then findMinimum rndD f xl xr tol 400 else findMaximum rndD f xl xr tol 400
+        show1 r.1 r.2 fdef
   | "c11.nm" =>
     withArgs (do let ftol ← pRat; let pp ← pList pRats; let pr ← pProg; pure (ftol, pp, pr)) args
       fun (ftol, pp, pr) =>
